@@ -39,7 +39,7 @@ FORMATS = ['bdd.pickle', 'autoref.pickle', 'autoref.json',
 
 def plan(tier, seed):
     specs = []
-    for n in (1, 2, 3):
+    for n in (0, 1, 2, 3):
         for so in fix.orders(n):
             specs.append(dict(kind='all', n=n, source=so, seed=seed))
     for s in range(32 if tier == 'thorough' else 6):
@@ -127,6 +127,17 @@ def check_case(case, cwd):
             pre = [_ar.Function(tbd(t & tt.full(tn)), T)
                    for t in case['pre']]
     levels = case['levels']
+    tr = case.get('t_reorder', 0)
+    if tr:
+        # the receiving manager has dynamic reordering enabled, with a
+        # low threshold so that the load itself crosses it
+        import dd.bdd as _bddm
+        old_starts = _bddm.REORDER_STARTS
+        _bddm.REORDER_STARTS = tr
+        try:
+            T.configure(reordering=True)
+        finally:
+            _bddm.REORDER_STARTS = old_starts
     ptabs = [Den(T._bdd, tnm)(f.node) for f in pre]
     before = (dict(T._bdd._succ), dict(T._bdd._ref), dict(T._bdd.vars))
     fname = os.path.join(cwd, 'rt')
@@ -176,12 +187,15 @@ def check_case(case, cwd):
         require(d(f.node) == t, 'load.changed_existing_function')
     led = ledger_of(pre + fs + (sf if T is S else []))
     inv.check_manager(T._bdd, led, tnm, semantic=(tn <= 5))
+    if tr:
+        require(T.configure()['reordering'] is True,
+                'load.switched_reordering_off')
     if state == 'fresh' and fmt != 'bdd.pickle' or state == 'fresh':
         # variables and (where requested) their levels as dumped
         require(set(T.vars) == set(so), 'load.vars_differ',
                 dict(got=dict(T.vars)))
-        if (levels and fmt.endswith('pickle')) or \
-                fmt == '_copy.json.load_order':
+        if ((levels and fmt.endswith('pickle')) or
+                fmt == '_copy.json.load_order') and not tr:
             require(dict(T.vars) == {x: l for l, x in enumerate(so)},
                     'load.levels_differ', dict(got=dict(T.vars)))
     return 'loaded'
@@ -198,6 +212,7 @@ def run_all(spec, out):
         for fmt in FORMATS:
             for state in ('fresh', 'same', 'declared'):
                 for as_dict in (False, True):
+                  for t_reorder in (0, 2):
                     for levels in (False, True):
                         if state == 'same' and to != so:
                             continue
@@ -209,7 +224,7 @@ def run_all(spec, out):
                         case = dict(base, kind='case', target=to, fmt=fmt,
                                     state=state, as_dict=as_dict,
                                     levels=levels, roots=list(range(F + 1)),
-                                    pre=[F // 3, 1],
+                                    pre=[F // 3, 1], t_reorder=t_reorder,
                                     src_history=(as_dict != levels))
                         res = []
                         out.guard(case, lambda: res.append(
@@ -297,7 +312,7 @@ def run_random(spec, out):
 
     @st.composite
     def cases(draw):
-        n = draw(st.integers(1, 4))
+        n = draw(st.sampled_from([0, 1, 2, 2, 3, 3, 3, 4, 4, 4]))
         F = tt.full(n)
         so = draw(st.permutations(list(fix.names(n))))
         mode = draw(st.sampled_from(['rt'] * 8 + ['roots_none', 'manager']))
@@ -320,6 +335,7 @@ def run_random(spec, out):
                     src_history=draw(st.booleans()),
                     junk=draw(st.lists(st.integers(0, 65535), max_size=3)),
                     levels=draw(st.booleans()), roots=roots,
+                    t_reorder=draw(st.sampled_from([0, 0, 0, 1, 2, 4])),
                     pre=draw(st.lists(st.integers(0, 65535), max_size=3)))
 
     @hypothesis.seed(spec['seed'])
